@@ -60,3 +60,50 @@ func init() {
 		return mkBV(t.w, x.ps.concretize(t, "Pick"))
 	}
 }
+
+// time.Time comparisons as single terms (pure stdlib callees summarised so that
+// they do not fork the path): mirrors time.Time.Before/After/Equal exactly.
+func timeParts(v Value) (wall, ext *Term) {
+	a := v.(*Agg)
+	return termOf(a.e[0]), termOf(a.e[1])
+}
+
+func timeSecNsec(wall, ext *Term) (sec, nsec *Term) {
+	const hasMonotonic = uint64(1) << 63
+	const nsecShift = 30
+	const wallToInternal int64 = (1884*365 + 1884/4 - 1884/100 + 1884/400) * 86400
+	mono := mkNot(mkEq(bvBin(OpBAnd, wall, mkBV(64, hasMonotonic)), mkBV(64, 0)))
+	wsec := bvBin(OpAdd, mkBV(64, uint64(wallToInternal)), bvBin(OpLShr, bvBin(OpShl, wall, mkBV(64, 1)), mkBV(64, nsecShift+1)))
+	sec = mkIte(mono, wsec, ext)
+	nsec = bvBin(OpBAnd, wall, mkBV(64, (1<<nsecShift)-1))
+	return
+}
+
+func timeCmp(a, b Value) (lt, eq *Term) {
+	const hasMonotonic = uint64(1) << 63
+	aw, ae := timeParts(a)
+	bw, be := timeParts(b)
+	bothMono := mkNot(mkEq(bvBin(OpBAnd, bvBin(OpBAnd, aw, bw), mkBV(64, hasMonotonic)), mkBV(64, 0)))
+	as, an := timeSecNsec(aw, ae)
+	bs, bn := timeSecNsec(bw, be)
+	ltW := mkOr(mkCmp(OpSlt, as, bs), mkAnd(mkEq(as, bs), mkCmp(OpUlt, an, bn)))
+	eqW := mkAnd(mkEq(as, bs), mkEq(an, bn))
+	lt = mkIte(bothMono, mkCmp(OpSlt, ae, be), ltW)
+	eq = mkIte(bothMono, mkEq(ae, be), eqW)
+	return
+}
+
+func init() {
+	intrinsics["(time.Time).Before"] = func(x *Exec, c *frame, fn *ssa.Function, a []Value) Value {
+		lt, _ := timeCmp(a[0], a[1])
+		return lt
+	}
+	intrinsics["(time.Time).After"] = func(x *Exec, c *frame, fn *ssa.Function, a []Value) Value {
+		lt, _ := timeCmp(a[1], a[0])
+		return lt
+	}
+	intrinsics["(time.Time).Equal"] = func(x *Exec, c *frame, fn *ssa.Function, a []Value) Value {
+		_, eq := timeCmp(a[0], a[1])
+		return eq
+	}
+}
